@@ -31,6 +31,26 @@
 #include "dirblk_pre.h"
 #define ext2fs_bmap2 stub_bmap2
 #define ext2fs_dirhash2 stub_dirhash2
+/* the allocator wrappers are inline functions of ext2fs.h: include it first, then route link.c's calls */
+#include "config.h"
+#include <stdio.h>
+#include <string.h>
+#include "ext2_fs.h"
+#include "ext2fs.h"
+#define ext2fs_get_mem stub_get_mem
+#define ext2fs_free_mem stub_free_mem
+/* STUB: ext2fs_get_mem()/ext2fs_free_mem() = malloc/free with a direct pointer store (the real wrappers copy the pointer with memcpy, which costs the solver the object identity); allocation succeeds */
+static errcode_t stub_get_mem(unsigned long size, void *ptr)
+{
+	*(void **) ptr = malloc(size);
+	return 0;
+}
+static errcode_t stub_free_mem(void *ptr)
+{
+	free(*(void **) ptr);
+	*(void **) ptr = 0;
+	return 0;
+}
 #include "lib/ext2fs/link.c"
 #include "lib/ext2fs/dirblock.c"
 #include "env.c"
@@ -118,6 +138,9 @@ int main(void)
 	unsigned lv;
 
 	VF_INPUT(IN);
+#ifdef HV
+	IN.hash_version = HV;	/* BOUND: root hash_version fixed per query when HV is given */
+#endif
 	vf_setup_fs();
 	vf_sb.s_flags = IN.s_flags;
 	for (i = 0; i < 4; i++)
